@@ -403,11 +403,11 @@ theorem feedStep_resumable {ind : Ind F} (T : TreeSpec ind) (M : MgrSpec F) (s n
 
 /-! ### `add_indicator` / `remove_indicator` -/
 
-theorem LateInv.attach {nm : String} {ind : Ind F} {cfg : MgrCfg} {P : List (Candle F) → Prop}
-    {H H' : Hexital F} (inv : LateInv N nm ind cfg P H) (m : Member F)
+theorem LateInv.attachFrom {nm : String} {ind : Ind F} {cfg : MgrCfg} {P : List (Candle F) → Prop}
+    {H H' : Hexital F} (inv : LateInv N nm ind cfg P H) (src : Option (List (Candle F))) (m : Member F)
     (hself : m.tree.name = nm → m.tree = ind ∧ m.tfName = none)
     (hoth : m.tree.name ≠ nm → ∀ k, k ∈ m.tree.allNames → k ∈ N)
-    (ha : H.attach m = .ok H') : LateInv N nm ind cfg P H' := by
+    (ha : H.attachFrom src m = .ok H') : LateInv N nm ind cfg P H' := by
   obtain ⟨dm, cs, h1, h2, h3, h4⟩ := inv.dflt
   have key : ∀ (k : String) (ms : List (String × Manager F)), (ms.map (·.1)).Nodup →
       dlookup defaultKey ms = some dm → (m.tree.name = nm → k = defaultKey) →
@@ -429,7 +429,7 @@ theorem LateInv.attach {nm : String} {ind : Ind F} {cfg : MgrCfg} {P : List (Can
         exact ⟨(hself e).1, hk e⟩
       · simp only [e, if_false] at hl
         exact inv.self hi hl
-  unfold Hexital.attach at ha
+  unfold Hexital.attachFrom at ha
   split at ha
   · cases ha; exact key _ _ inv.mgrNodup h1 (fun _ => rfl)
   · rename_i tf htf
@@ -437,7 +437,7 @@ theorem LateInv.attach {nm : String} {ind : Ind F} {cfg : MgrCfg} {P : List (Can
     split at ha
     · cases ha; exact key _ _ inv.mgrNodup h1 (fun e => absurd e hnot)
     · rename_i hdh
-      obtain ⟨dm', _, ha⟩ := Writes.bind_ok ha
+      obtain ⟨raw, _, ha⟩ := Writes.bind_ok ha
       obtain ⟨nmgr, _, ha⟩ := Writes.bind_ok ha
       cases ha
       have htfne : ¬ tf = defaultKey := by
@@ -445,11 +445,21 @@ theorem LateInv.attach {nm : String} {ind : Ind F} {cfg : MgrCfg} {P : List (Can
       refine key _ _ (Writes.nodup_keys_dset _ _ _ inv.mgrNodup) ?_ (fun e => absurd e hnot)
       rw [dlookup_dset]; simp only [htfne, if_false]; exact h1
 
-theorem LateInv.attachAll {nm : String} {ind : Ind F} {cfg : MgrCfg} {P : List (Candle F) → Prop} :
+/-- `add_indicator` -/
+theorem LateInv.attach {nm : String} {ind : Ind F} {cfg : MgrCfg} {P : List (Candle F) → Prop}
+    {H H' : Hexital F} (inv : LateInv N nm ind cfg P H) (m : Member F)
+    (hself : m.tree.name = nm → m.tree = ind ∧ m.tfName = none)
+    (hoth : m.tree.name ≠ nm → ∀ k, k ∈ m.tree.allNames → k ∈ N)
+    (ha : H.attach m = .ok H') : LateInv N nm ind cfg P H' :=
+  inv.attachFrom none m hself hoth ha
+
+/-- the member loop of `_validate_indicators`, from the constructor (`src = some init`) or from `add_indicator` -/
+theorem LateInv.attachAll {nm : String} {ind : Ind F} {cfg : MgrCfg} {P : List (Candle F) → Prop}
+    (src : Option (List (Candle F))) :
     ∀ (l : List (Member F)) (H H' : Hexital F), LateInv N nm ind cfg P H →
       (∀ m, m ∈ l → (m.tree.name = nm → m.tree = ind ∧ m.tfName = none) ∧
         (m.tree.name ≠ nm → ∀ k, k ∈ m.tree.allNames → k ∈ N)) →
-      l.foldlM Hexital.attach H = .ok H' → LateInv N nm ind cfg P H' := by
+      l.foldlM (Hexital.attachFrom src) H = .ok H' → LateInv N nm ind cfg P H' := by
   intro l
   induction l with
   | nil => intro H H' inv _ e; simp [List.foldlM, pure, Except.pure] at e; subst e; exact inv
@@ -457,7 +467,7 @@ theorem LateInv.attachAll {nm : String} {ind : Ind F} {cfg : MgrCfg} {P : List (
     intro H H' inv hms e
     rw [List.foldlM_cons] at e
     obtain ⟨H1, e1, e2⟩ := Writes.bind_ok e
-    exact ih H1 H' (inv.attach m (hms m (by simp)).1 (hms m (by simp)).2 e1)
+    exact ih H1 H' (inv.attachFrom src m (hms m (by simp)).1 (hms m (by simp)).2 e1)
       (fun m' hm' => hms m' (List.mem_cons_of_mem _ hm')) e2
 
 omit [PyF F] in
@@ -588,7 +598,7 @@ theorem LateInv.step (a : Member F) (hatf : a.tfName = none) (hnm : a.tree.name 
   | add ms =>
     simp only [TwinOp.added, List.append_nil]
     unfold TwinOp.runHex Hexital.addIndicators at hop
-    refine LateInv.attachAll _ H H' inv (fun m hm => ?_) hop
+    refine LateInv.attachAll none _ H H' inv (fun m hm => ?_) hop
     rcases hopok m hm with e | ⟨e1, e2⟩
     · subst e
       exact ⟨fun _ => ⟨hind, hatf⟩, fun h => absurd hnm h⟩
@@ -643,7 +653,7 @@ theorem LateInv.init (a : Member F) (hatf : a.tfName = none) (hnm : a.tree.name 
      ⟨{ cfg := M.cfg, candles := M.spec init }, M.spec init, by simp [dlookup], rfl, StripEq.refl _ _,
       Gen.resumableAt_plain T.S _ (M.spec_plain init hs)⟩,
      fun hi hl => by simp at hl⟩
-  refine LateInv.attachAll _ _ H inv0 (fun m hm => ?_) hfold
+  refine LateInv.attachAll (some init) _ _ H inv0 (fun m hm => ?_) hfold
   rcases hms m hm with e | ⟨e1, e2⟩
   · subst e
     exact ⟨fun _ => ⟨hind, hatf⟩, fun h => absurd hnm h⟩
@@ -1102,8 +1112,10 @@ store the same readings under every name of `a`'s tree, and the column is THE ro
  * RESTRICTIONS of this file: `a` has no timeframe of its own (`hatf`), and its tree has a row-major spec (`TreeSpec`;
    all 27 shipped classes: `presence_late_covered`).
 LEFT OPEN – `a` with its own timeframe.  Then `a` lives on a manager of its own that is CREATED when the first member
-with that timeframe name is attached, from the default manager's candles at that moment (`memberRaw`: handed over raw –
-`recover_clean_values`, `reset_candle` – unless the member's timeframe is the Hexital's own).  Needed in addition:
+with that timeframe name is attached – by `add_indicator` from the default manager's candles at that moment
+(`Hexital.attachRaw none`: handed over raw – `recover_clean_values`, `reset_candle` – unless the member's timeframe is
+the Hexital's own); by the CONSTRUCTOR, since the library's repair, from the candles as given (`attachRaw (some init)`),
+which is the case `Writes/Twin.lean` / `Writes/TwinTf.lean` (`members_all`) settle.  Needed in addition:
 (i) the invariant must speak about two managers: "the manager under `a`'s key, once it exists, holds – up to `N` – a list
 resumable over `M'.spec (stream)`; until then the default manager holds – up to entries that `reset` wipes – the stream
 itself"; (ii) a lemma that creation commutes with feeding: `Manager.init cfg' (tasks cfg stream)` is `M'.spec stream`
